@@ -7,8 +7,8 @@ package multidb
 // gRecN / gRecs model the table records stored (RLP) under the records key of a database.
 //@ ghost gRecN[kvdb.Store] int
 //@ ghost gRecs[kvdb.Store] [1]TableRecord
-//@ // gNamesOf[t]: Names() has been asked of the producer of type t by the running getRecords
-//@ ghost gAsked[TypeName] bool
+//@ // gAskedAt[t]: the number (gNamesN) of the last Names() call made on the producer of type t
+//@ ghost gAskedAt[TypeName] int
 //@ // assumed: the records list is read back as written (RLP round trip through the store)
 //@ trusted func ReadTablesList
 //@   requires store != nil
@@ -77,3 +77,17 @@ package multidb
 //@   ensures  [fail] result != nil ==> exists(loc DBLocator, has(oldDBRecords, loc) && exists(j, 0, len(oldDBRecords[loc]), !sameRoute(p, loc, oldDBRecords[loc][j])))
 //@   loop 1 invariant forall(loc DBLocator, _visited[loc] ==> forall(j, 0, len(oldDBRecords[loc]), sameRoute(p, loc, oldDBRecords[loc][j])))
 //@   loop 2 invariant 0 <= _k && _k <= len(records) && forall(j, 0, _k, sameRoute(p, oldLoc, records[j]))
+//@
+//@ // getRecords collects the recorded requests of EVERY database of EVERY known producer (also of producer types the
+//@ // current routing no longer uses): the names of each producer in allProducers are listed, each database is opened
+//@ // and its records are filed under (type, name)
+//@ func (*Producer).getRecords
+//@   requires p != nil && forall(t TypeName, has(p.allProducers, t) ==> p.allProducers[t] != nil)
+//@   modifies gNamesN, gAskedAt[*], nopen, gCloserCloseN, gCloserCloseRecv, gCloserCloseR0
+//@   at call Iterable.Names[1] ghost gAskedAt[typ] = gNamesN after
+//@   ensures  [all] result1 == nil ==> forall(t TypeName, has(p.allProducers, t) ==> gAskedAt[t] > old(gNamesN))
+//@   ensures  [map] result1 == nil ==> result0 != nil
+//@   loop 1 modifies dbRecords[*], gNamesN, gAskedAt[*], nopen
+//@   loop 1 invariant gNamesN >= old(gNamesN) && forall(t TypeName, _visited[t] ==> gAskedAt[t] > old(gNamesN))
+//@   loop 2 modifies dbRecords[*], nopen
+//@   loop 2 invariant 0 <= _k && _k <= len(_range) && forall(j, 0, _k, has(dbRecords, mk("DBLocator", typ, _range[j])))
